@@ -72,6 +72,11 @@ def generate(rng, n, tier="quick"):
             val = {"{{v}}": "V", "{{{v}}}": "V", "{{w}}": "", "{{&v}}": "V"}
             tpl = t1 + quote(s) + t2
             exp = val[t1] + s + val[t2]
+            if r.chance(0.3):
+                # a '~' tag directly behind the closing tag has nothing to remove: the text before t2 is out of its reach
+                extra = r.pick(["{{~v}}", "{{~{v}}}", "{{~#if v}}y{{/if}}", "{{~#unless v}}n{{/unless}}x"])
+                tpl += extra
+                exp += {"{{~v}}": "V", "{{~{v}}}": "V", "{{~#if v}}y{{/if}}": "y", "{{~#unless v}}n{{/unless}}x": "x"}[extra]
         elif mode == "around":
             # text around tags that the standalone-line rule and nothing else may touch: whatever that rule removes is
             # whitespace next to the tag – every other character must come out, in order (see `fits`)
